@@ -151,6 +151,13 @@ func c05Extra(pc *propCheck) {
 		}
 		for _, b := range fn.Blocks {
 			for _, ins := range b.Instrs {
+				// text handed to the strings package is inspected or rewritten, not emitted
+				// (the escaping step itself: strings.ReplaceAll(c, "(*", "( *"))
+				if ci, ok := ins.(ssa.CallInstruction); ok {
+					if f := ci.Common().StaticCallee(); f != nil && f.Pkg != nil && f.Pkg.Pkg.Path() == "strings" {
+						continue
+					}
+				}
 				for _, op := range ins.Operands(nil) {
 					c, ok := (*op).(*ssa.Const)
 					if !ok || c.Value == nil || c.Value.Kind() != constant.String {
